@@ -1341,4 +1341,83 @@ theorem copyStep_inv (s : Mem) (rid : Nat) (hi : MemInv s) : MemInv (s.copyStep 
                     exact ⟨by dsimp only; omega, by dsimp only; unfold MSeg.right at *; omega, hok.base, hok.ord, hok.out⟩
                 · exact hi
 
+theorem touch_inv (s : Mem) (hi : MemInv s) {r : MReader} (hr : r ∈ s.readers) (r' : MReader) (ha : r'.isAof = r.isAof)
+    (hseg : r'.seg = r.seg) (hp : r'.pos = r.pos) (hs : r'.start = r.start) (ho : r'.out = r.out)
+    (hrel : r'.released = false → r.released = false) :
+    MemInv { s with readers := mSetReader s.readers r' } :=
+  ⟨hi.stream.touchReader hr r' ha hseg hp hs ho hrel, hi.rdb⟩
+
+theorem consume_inv (s : Mem) (rid n : Nat) (hi : MemInv s) : MemInv (s.consume rid n).1 := by
+  unfold Mem.consume
+  cases hfr : mFindReader s.readers rid with
+  | none => exact hi
+  | some r =>
+    have hrm := mFindReader_mem hfr
+    dsimp only
+    split
+    · exact touch_inv s hi hrm _ rfl rfl rfl rfl rfl (fun h => h)
+    · split
+      · exact touch_inv s hi hrm _ rfl rfl rfl rfl rfl (fun h => h)
+      · split
+        · split <;> exact hi
+        · exact hi
+
+theorem closeReader_inv (s : Mem) (rid : Nat) (hi : MemInv s) : MemInv (s.closeReader rid).1 := by
+  unfold Mem.closeReader
+  cases hfr : mFindReader s.readers rid with
+  | none => exact hi
+  | some r =>
+    have hrm := mFindReader_mem hfr
+    dsimp only
+    split
+    · exact touch_inv s hi hrm _ rfl rfl rfl rfl rfl (fun h => h)
+    · exact touch_inv s hi hrm _ rfl rfl rfl rfl rfl (fun h => by cases h)
+
+/-! ### a blocked writer tries again -/
+
+theorem setPend_inv (s : Mem) (hi : MemInv s) (a r : Option Bytes) : MemInv { s with pendA := a, pendR := r } :=
+  ⟨hi.stream, hi.rdb⟩
+
+theorem retry_inv (s : Mem) (hi : MemInv s) : MemInv s.retry.1 := by
+  unfold Mem.retry
+  cases hpa : s.pendA with
+  | some buf =>
+    dsimp only
+    cases haw : s.aofW with
+    | none =>
+      dsimp only
+      have hs := hi.stream
+      unfold StreamInv at hs; rw [haw] at hs
+      exact ⟨hs, hi.rdb⟩
+    | some cur =>
+      dsimp only
+      have h1 := appendAofLoop_inv (buf.length + 1) s buf 0 hi
+      split <;> exact ⟨h1.stream, h1.rdb⟩
+  | none =>
+    dsimp only
+    cases hpr : s.pendR with
+    | none => exact hi
+    | some buf =>
+      dsimp only
+      cases hr : s.rdb with
+      | none =>
+        dsimp only
+        exact ⟨hi.stream, RdbOk.none _⟩
+      | some r =>
+        dsimp only
+        have hrk := hi.rdb
+        rw [hr] at hrk
+        split
+        · exact ⟨hi.stream, hrk⟩
+        · have h1 := (appendRdbLoop_inv (buf.length + 1) s buf 0 hi).1
+          split
+          · exact ⟨h1.stream, h1.rdb⟩
+          · have h2 : MemInv { (Mem.appendRdbLoop (buf.length + 1) s buf 0).1 with pendR := none } := ⟨h1.stream, h1.rdb⟩
+            dsimp only
+            split
+            · split
+              · exact (finishRdb_inv _ false h2).1
+              · exact h2
+            · exact h2
+
 end GunYu.Store
